@@ -6,7 +6,13 @@ use proptest::prelude::*;
 use serde::{Deserialize, Serialize};
 
 /// Component alphabet: siblings share a textual but not a component prefix (a / ab / aa).
-pub const COMPS: [&str; 6] = ["a", "b", "ab", "aa", "ba", "é"];
+macro_rules! c16 {
+    ($s:expr) => {
+        concat!($s, $s, $s, $s, $s, $s, $s, $s, $s, $s, $s, $s, $s, $s, $s, $s)
+    };
+}
+/// (the last component is 300 characters long; "a" is listed more than once to keep shared prefixes likely)
+pub const COMPS: [&str; 9] = ["a", "b", "ab", "aa", "ba", "é", "a", "b", concat!("long", c16!(c16!("n")), c16!("mm"), "12345678")];
 pub const APPENDERS: [&str; 5] = ["A0", "A1", "A2", "A3", "A4"];
 
 #[derive(Debug, Clone, Serialize, Deserialize)]
